@@ -53,15 +53,19 @@ type c20m struct {
 	rsync bool
 	bm    *server.BackupManager
 	// state of the source when the last completed run started
-	snap     map[string]any
-	snapF04  map[string]bool // targets whose incoming relations are in F04's input shape at that time
-	snapAt   int             // index in the history
-	runs     int             // completed runs
-	dirty    bool            // something was written since the last completed run
-	restart  bool            // a restart happened since the last completed run
-	nt       bool
-	restores int
-	clock    int
+	snap    map[string]any
+	snapF04 map[string]bool // targets whose incoming relations are in F04's input shape at that time
+	snapAt  int             // index in the history
+	runs    int             // completed runs
+	dirty   bool            // something was written since the last completed run
+	restart bool            // a restart happened since the last completed run
+	nt      bool
+	// F34 shape: keys deleted after the first completed backup run / stops of the hub so far
+	deletedAfterBackup bool
+	stops              int
+	noF34              bool // probes run without the exclusion
+	restores           int
+	clock              int
 }
 
 var c20CronOnce sync.Once
@@ -248,12 +252,20 @@ func (c *c20m) applyRestart() {
 	c.g.applyRestart(Op{K: "restart"})
 	c.newManager()
 	c.restart = true
+	c.stops++
 }
 
 // applyRestore is the oracle.
 func (c *c20m) applyRestore() {
 	g := c.g
 	if c.snap == nil {
+		return
+	}
+	if kit.Known("F34") && !c.noF34 && !c.rsync && c.deletedAfterBackup && c.stops >= 5 {
+		// known finding F34 (input shape: keys were deleted after a backup run and the hub has been
+		// stopped five times or more - five tables in badger's level 0 start the compaction that drops
+		// the deletion markers an incremental backup run depends on)
+		kit.S().Exclude("F34")
 		return
 	}
 	g.record(Op{K: "restore"})
@@ -402,6 +414,11 @@ func c20Actions(c *c20m) map[string]func(*rapid.T) {
 			if len(g.hist) > n {
 				c.dirty = true
 			}
+			for _, op := range g.hist[n:] {
+				if c.runs >= 1 && (op.K == "delete" || op.K == "rename" || op.K == "gc") {
+					c.deletedAfterBackup = true // these remove keys from the store
+				}
+			}
 		}
 	}
 	acts["backup"] = func(t *rapid.T) { g.t = t; c.applyBackup() }
@@ -414,7 +431,7 @@ func c20Actions(c *c20m) map[string]func(*rapid.T) {
 		}
 		c.applyRestore()
 	}
-	if !c.rsync {
+	if !c.rsync && kit.EnvInt("VERIF_C20_NO_VOLUME_FULL", 0) == 0 {
 		acts["backupVolumeFull"] = func(t *rapid.T) {
 			g.t = t
 			if rapid.IntRange(0, 1).Draw(t, "rare") != 0 {
